@@ -37,6 +37,8 @@ import (
 	"github.com/nuts-foundation/nuts-node/jsonld"
 	"github.com/nuts-foundation/nuts-node/storage"
 	"github.com/nuts-foundation/nuts-node/storage/orm"
+	"github.com/nuts-foundation/nuts-node/vcr"
+	vcrapi "github.com/nuts-foundation/nuts-node/vcr/api/vcr/v2"
 	"github.com/nuts-foundation/nuts-node/vcr/credential"
 	"github.com/nuts-foundation/nuts-node/vcr/holder"
 	"github.com/nuts-foundation/nuts-node/vcr/issuer"
@@ -53,6 +55,14 @@ import (
 )
 
 const statusBaseURL = "https://producer.verif.example"
+
+// apiVCR is the vcr.VCR the REST wrapper sees: only Verifier() is used by the verification handlers.
+type apiVCR struct {
+	vcr.VCR
+	v verifier.Verifier
+}
+
+func (a apiVCR) Verifier() verifier.Verifier { return a.v }
 
 type fakePublisher struct {
 	revocations []credential.Revocation
@@ -86,6 +96,7 @@ type node struct {
 	trust    *trust.Config
 	status   *revocation.StatusList2021
 	verifier verifier.Verifier
+	api      *vcrapi.Wrapper // REST handlers of /internal/vcr/v2 over this node's verifier
 	// producer only
 	keys   *nutscrypto.Crypto
 	issuer issuer.Issuer
@@ -151,6 +162,7 @@ func newNode(t *testing.T, name string, producer bool, doer core.HTTPRequestDoer
 		n.issuer = issuer.NewIssuer(istore, nil, n.pub, nil, n.router, n.keys, n.ld, n.trust, n.status)
 	}
 	n.verifier = verifier.NewVerifier(n.vstore, n.router, n.keyRes, n.ld, n.trust, n.status)
+	n.api = &vcrapi.Wrapper{ContextManager: n.ld, VCR: apiVCR{v: n.verifier}}
 	if producer {
 		n.wallet = holder.NewSQLWallet(n.keyRes, n.keys, n.verifier, n.ld, n.engine)
 	}
